@@ -3,7 +3,7 @@
  * out has 32*16 bytes, of which only out[0..32*num_inputs) is assignable */
 #define HARNESS_HASH_MANY(F)                                                             \
   void harness(void) {                                                                   \
-    VERIF_HAVOC_GLOBALS();                                                               \
+    VERIF_PROLOGUE();                                                            \
     const uint8_t *rows[16];                                                             \
     size_t num_inputs, blocks;                                                           \
     __CPROVER_assume(num_inputs <= 16 && blocks <= VERIF_MAX_OBJ / 64);                  \
